@@ -562,11 +562,20 @@ func SortedKV(m []refmcap.KV) []refmcap.KV {
 	return out
 }
 
-// Rng returns the deterministic generator for one case of one property.
+// Rng returns the deterministic generator for one case of one property. The seed is scrambled
+// (splitmix64) because math/rand sources seeded with nearby values start out correlated.
 func Rng(seed int64, prop string, i int) *rand.Rand {
-	h := int64(1469598103934665603)
+	h := uint64(1469598103934665603)
 	for _, c := range prop {
-		h = (h ^ int64(c)) * 1099511628211
+		h = (h ^ uint64(c)) * 1099511628211
 	}
-	return rand.New(rand.NewSource(seed*1_000_003 + h + int64(i)*7919))
+	x := splitmix(uint64(seed)*0x9E3779B97F4A7C15 ^ splitmix(h) ^ splitmix(uint64(i)+0x632BE59BD9B4E019))
+	return rand.New(rand.NewSource(int64(x >> 1)))
+}
+
+func splitmix(x uint64) uint64 {
+	x += 0x9E3779B97F4A7C15
+	x = (x ^ (x >> 30)) * 0xBF58476D1CE4E5B9
+	x = (x ^ (x >> 27)) * 0x94D049BB133111EB
+	return x ^ (x >> 31)
 }
